@@ -202,7 +202,7 @@ func (c cfg) String() string {
 
 func genCfg(r *vf.RNG) cfg {
 	c := cfg{
-		Queue:         vf.Pick(r, []int{1, 2, 3, 8, 64, 2048}),
+		Queue:         vf.Pick(r, []int{0, 1, 2, 3, 8, 64, 2048}),
 		Batch:         vf.Pick(r, []int{1, 2, 3, 7, 64, 512}),
 		Timeout:       vf.Pick(r, []time.Duration{time.Millisecond, 5 * time.Millisecond, time.Hour}),
 		ExportTimeout: vf.Pick(r, []time.Duration{0, time.Millisecond, time.Second}),
@@ -214,6 +214,11 @@ func genCfg(r *vf.RNG) cfg {
 		Procs:         vf.Pick(r, []int{2, 4, 16}),
 	}
 	c.PerProducer = 1 + r.Intn(400/c.Producers+1)
+	if c.Queue == 0 {
+		// an unbuffered queue is explored in blocking mode only: in dropping mode the sentinel span of the quiescence
+		// protocol below may itself be dropped after the last total_dropped record, so exact accounting has no anchor
+		c.Blocking = true
+	}
 	if c.ExpMode == 3 && c.ExportTimeout == 0 {
 		c.ExportTimeout = time.Millisecond
 	}
@@ -734,7 +739,7 @@ func runCapacity(k *vf.Case) {
 
 func main() {
 	vf.Main("C01", "exploration", func(c *vf.Ctx) {
-		c.Rule = "seeded concurrent histories against the real BatchSpanProcessor: producers x spans, flushers (live/short-deadline/cancelled contexts), mid-run and concurrent Shutdown callers, configurations queue{1,2,3,8,64,2048} x batch{1,2,3,7,64,512} x timeout{1ms,5ms,1h} x exportTimeout{0,1ms,1s} x blocking, exporters instant/slow/erroring/ctx-blocking/gate-blocked, GOMAXPROCS{2,4,16}; one history at a time per child process so the SDK's total_dropped debug record is attributable. distinct = distinct (configuration, drops seen, flush||export overlap, shutdown||End overlap) signatures"
+		c.Rule = "seeded concurrent histories against the real BatchSpanProcessor: producers x spans, flushers (live/short-deadline/cancelled contexts), mid-run and concurrent Shutdown callers, configurations queue{0 (blocking only),1,2,3,8,64,2048} x batch{1,2,3,7,64,512} x timeout{1ms,5ms,1h} x exportTimeout{0,1ms,1s} x blocking, exporters instant/slow/erroring/ctx-blocking/gate-blocked, GOMAXPROCS{2,4,16}; one history at a time per child process so the SDK's total_dropped debug record is attributable. distinct = distinct (configuration, drops seen, flush||export overlap, shutdown||End overlap) signatures"
 		c.Assume = []string{"ForceFlush calls overlapping or following a Shutdown are covered by the Shutdown's guarantee (by design they return nil early)", "quiet-after-Shutdown and visibility are asserted for calls that returned nil", "exact conservation uses the SDK's own total_dropped debug record; per-call visibility in dropping mode with possible overflow is a count inequality"}
 		if c.IsChild() || os.Getenv("VF_REPLAY_ISOLATE") == "" {
 			otel.SetLogger(logr.New(theSink))
